@@ -160,11 +160,11 @@ var typeMembers = map[string][]string{
 	"cons":                 {"list12", "dotted", "nested", "alist", "lamx"},
 	"association list":     {"nil", "alist"},
 	"property list":        {"nil", "list12"},
-	"fixnum":               {"fix0", "fix1", "fixm1", "fix2", "fix3", "fix4", "fix8", "fix2e62"},
-	"integer":              {"fix0", "fix1", "fixm1", "fix2", "fix3", "fix4", "fix8", "fix2e62", "big2e64"},
-	"rational":             {"fix0", "fix1", "fixm1", "fix2", "fix3", "fix4", "fix8", "fix2e62", "big2e64", "ratio"},
-	"real":                 {"fix0", "fix1", "fixm1", "fix2", "fix3", "fix4", "fix8", "fix2e62", "big2e64", "ratio", "dbl", "sgl"},
-	"number":               {"fix0", "fix1", "fixm1", "fix2", "fix3", "fix4", "fix8", "fix2e62", "big2e64", "ratio", "dbl", "sgl"},
+	"fixnum":               {"fix0", "fix1", "fixm1", "fix2", "fix3", "fix4", "fix8", "fix2e62", "fixmax", "fixmin"},
+	"integer":              {"fix0", "fix1", "fixm1", "fix2", "fix3", "fix4", "fix8", "fix2e62", "big2e64", "fixmax", "fixmin"},
+	"rational":             {"fix0", "fix1", "fixm1", "fix2", "fix3", "fix4", "fix8", "fix2e62", "big2e64", "ratio", "fixmax", "fixmin"},
+	"real":                 {"fix0", "fix1", "fixm1", "fix2", "fix3", "fix4", "fix8", "fix2e62", "big2e64", "ratio", "dbl", "sgl", "fixmax", "fixmin"},
+	"number":               {"fix0", "fix1", "fixm1", "fix2", "fix3", "fix4", "fix8", "fix2e62", "big2e64", "ratio", "dbl", "sgl", "fixmax", "fixmin"},
 	"float":                {"dbl", "sgl"},
 	"octet":                {"fix0", "fix1", "fix2", "fix3", "fix4", "fix8"},
 	"string":               {"str0", "str", "strl", "stral", "strj"},
@@ -172,13 +172,13 @@ var typeMembers = map[string][]string{
 	"symbol":               {"nil", "t", "sym", "fsym", "kwend", "kwkey"},
 	"keyword":              {"kwend", "kwkey"},
 	"nil":                  {"nil"},
-	"sequence":             {"nil", "list12", "nested", "alist", "lamx", "vec0", "vec12", "bitv", "octets", "fpvec", "str0", "str", "strl", "stral", "strj"},
-	"sequemce":             {"nil", "list12", "nested", "alist", "lamx", "vec0", "vec12", "bitv", "octets", "fpvec", "str0", "str", "strl", "stral", "strj"},
-	"vector":               {"vec0", "vec12", "bitv", "octets", "fpvec", "str0", "str", "strl", "stral", "strj"},
-	"simple-vector":        {"vec0", "vec12"},
-	"array":                {"vec0", "vec12", "bitv", "octets", "fpvec", "str0", "str", "strl", "stral", "strj", "arr2d"},
-	"bit-array":            {"bitv"},
-	"simple-bit-array":     {"bitv"},
+	"sequence":             {"nil", "list12", "nested", "alist", "lamx", "vec0", "vec12", "bitv", "octets", "fpvec", "str0", "str", "strl", "stral", "strj", "fpover", "fpshrunk", "adjarr", "bvcoerce4", "bvfixed8", "bvread9"},
+	"sequemce":             {"nil", "list12", "nested", "alist", "lamx", "vec0", "vec12", "bitv", "octets", "fpvec", "str0", "str", "strl", "stral", "strj", "fpover", "fpshrunk", "adjarr", "bvcoerce4", "bvfixed8", "bvread9"},
+	"vector":               {"vec0", "vec12", "bitv", "octets", "fpvec", "str0", "str", "strl", "stral", "strj", "fpover", "fpshrunk", "adjarr", "bvcoerce4", "bvfixed8", "bvread9"},
+	"simple-vector":        {"vec0", "vec12", "adjarr"},
+	"array":                {"vec0", "vec12", "bitv", "octets", "fpvec", "str0", "str", "strl", "stral", "strj", "arr2d", "fpover", "fpshrunk", "adjarr", "bvcoerce4", "bvfixed8", "bvread9"},
+	"bit-array":            {"bitv", "bvcoerce4", "bvfixed8", "bvread9"},
+	"simple-bit-array":     {"bitv", "bvcoerce4", "bvfixed8", "bvread9"},
 	"octets":               {"octets"},
 	"hash-table":           {"hash"},
 	"package":              {"pkg"},
